@@ -46,7 +46,7 @@ def check(ctx):
     deep = any(not o.ok for o in ctx.obls)
     pool = snippets.sv_sources()
     base = r.sample(pool, min(len(pool), 60 if (q and not deep) else 500))
-    srcs = [("sv", h) for h in HEADS] + [("lib", h) for h in HEADS] + base
+    srcs = [("sv", h) for h in HEADS] + [("lib", h) for h in HEADS] + base + [("sv", t) for t in snippets.KW_REGIONS]
     for k, s in list(base):
         for _ in range(1 if q else 3):
             srcs.append((k, mutate(r, s)))
